@@ -303,6 +303,11 @@ class DRFNet(BayesianNetwork):
             n = self.Ns
         elif type(n) == int:
             n = [n] * self.e
+        # Set the random state (if requested): a single generator for
+        # all bootstrap samples, and numpy's global generator which is
+        # used by drf when sampling from the forests
+        rng = np.random.default_rng(random_state)
+        np.random.seed(random_state) if random_state is not None else None
         # Generate a sample for each environment
         sampled_data = []
         for k in range(self.e):
@@ -311,7 +316,7 @@ class DRFNet(BayesianNetwork):
                 if self._random_forests[i, k] is None:
                     # Node has no parents, generate a sample using bootstrapping
                     sample[:, i] = _bootstrap(
-                        self._data[k][:, i], n[k], random_state=random_state
+                        self._data[k][:, i], n[k], random_state=rng
                     )
                 else:
                     parents = sempler.utils.pa(i, self.graph)
